@@ -160,12 +160,12 @@ def plan(tier):
     jobs = []
     names = list(c01._QUICK_SPECS)
     if tier == "quick":
-        slow = {"unions_str": 1, "compound": 1}
+        slow = {"unions_str": 1, "compound": 1, "nillable": 1, "sequential": 1, "family": 1, "unionmodels": 1}
         hostile = [3, 4, 5, 7, 8, 9, 1, 6]
         for n, name in enumerate(names):
             jobs.append(Job("wf", {"spec": name, "ns": hostile[n % 8], "ida": n % 2, "indent": (n // 2) % 2, "slen": slow.get(name, 2), "imax": 100}, 240, 30))
             if name in REFERENCE:
-                jobs.append(Job("wf", {"spec": name, "ns": [0, 2, 5, 8][n % 4], "ida": (n + 1) % 2, "indent": 0, "slen": 2, "imax": 100}, 240, 30))
+                jobs.append(Job("wf", {"spec": name, "ns": [0, 2, 5, 8][n % 4], "ida": (n + 1) % 2, "indent": 0, "slen": slow.get(name, 2), "imax": 100}, 240, 30))
         for name, ns in (("qnames", 7), ("nsattr", 10), ("nsattrparent", 10), ("nsattrparent", 1), ("family", 2), ("family", 7)):
             jobs.append(Job("wf", {"spec": name, "ns": ns, "ida": 0, "indent": 0, "slen": 1, "imax": 100}, 240, 30))
         for ns in (5, 8, 9):
